@@ -1615,7 +1615,13 @@ class DataFieldRecordArray(
         data_fields = dict(self._data_fields)
         for (old_fname, new_fname) in conversions.items():
             if old_fname in self.field_name_list:
-                data_fields[new_fname] = data_fields.pop(old_fname)
+                field_arr = data_fields.pop(old_fname)
+                if new_fname in data_fields:
+                    raise KeyError(
+                        f'The field "{old_fname}" cannot be renamed to '
+                        f'"{new_fname}", because a field with that name '
+                        'exists already!')
+                data_fields[new_fname] = field_arr
             elif must_exist is True:
                 raise KeyError(
                     f'The required field "{old_fname}" does not exist!')
